@@ -90,6 +90,19 @@ Next == /\ ~done
                                  order |-> (IF ValidArg(arg) THEN OrderOf(arg) ELSE <<>>),
                                  counts |-> (IF ValidArg(arg) THEN CountsOf(arg) ELSE <<>>)])>>)
 
+\* ---- documented constructor options: every combination (the driver runs a pairwise-covering subset in the quick
+\* tier and all of them in the thorough tier; what each option MEANS is stated as trace clauses in C15Trace) ---------
+OptVot       == {"default", "zero", "1e-3"}        \* virtual_orbital_threshold: default 1e-13, 0. = truncation off, 1e-3
+OptLoc       == {"meta_lowdin", "nao", "iao"}
+OptSolvers   == {"fci", "fci+ccsd"}                \* one name for all fragments | one solver per fragment
+OptOptimizer == {"default", "user"}                \* default secant search | a caller-supplied callable
+OptMu0       == {"0", "2e-3"}                      \* initial_chemical_potential
+OptVerbose   == {FALSE, TRUE}
+OptConfigs == { [vot |-> v, loc |-> l, solvers |-> so, optimizer |-> o, mu0 |-> m, verbose |-> vb] :
+                  v \in OptVot, l \in OptLoc, so \in OptSolvers, o \in OptOptimizer, m \in OptMu0, vb \in OptVerbose }
+InitOpt == arg \in OptConfigs /\ done = FALSE
+NextOpt == ~done /\ done' = TRUE /\ UNCHANGED arg /\ PrintT(<<"OPT", ToJson(arg)>>)
+
 \* ---- the semantics itself -------------------------------------------------------------------
 PermutationOK == ValidArg(arg) =>
                    LET o == OrderOf(arg)
